@@ -163,6 +163,14 @@ let () =
         let j l = if l = [] then "-" else String.concat "," l in
         Printf.printf "store=%s log=%s infl=%s res=%s\n" (j sv) (j (List.rev !log)) (j inf) (j res)
       with e -> print_endline ("modelerror " ^ Printexc.to_string e))
+    | "race" :: _ ->
+      (* two concurrent checkpoints of one session, images marshalled in the order old, new.  HEAD / repaired: the
+         write slots are taken in marshalling order; d_ckrace (before the fix): in reverse order *)
+      let evs = if variant = "d_ckrace"
+        then [OIssue (WPut (ni 2)); OIssue (WPut (ni 1)); OComplete true; OComplete true]
+        else [OIssue (WPut (ni 1)); OIssue (WPut (ni 2)); OComplete true; OComplete true] in
+      let w = List.fold_left ow_step ow_init evs in
+      print_endline (match w.q_val with Some v when int_of_n v = 2 -> "stale=no" | _ -> "stale=yes")
     | "sq" :: ops ->
       (* Store contract on the sqlite store; keys are single letters, values numbers *)
       (try
